@@ -44,6 +44,15 @@ def main():
                 if msg:
                     print(msg); bad = 1
         sys.exit(bad)
+    if kind == 'dxlog':
+        import mpmath
+        af, bf = float(sys.argv[2]), float(sys.argv[3])
+        got = C11.native_eval('dxlog', [af, bf])
+        mpmath.mp.dps = 60
+        A, B = mpmath.mpf(af), mpmath.mpf(bf)
+        refv = (A * A * mpmath.log(A) - B * B * mpmath.log(B)) / (A - B) if A != B else B * (1 + 2 * mpmath.log(B))
+        print(got, refv)
+        sys.exit(1 if abs(got - refv) > 1e-6 * bf else 0)
     if kind == 'limit':
         name, xf = sys.argv[2], float(sys.argv[3])
         lib = harness_native('h_ff')
